@@ -303,9 +303,9 @@ func main() {
 		val := func() float64 { v := pat[(i+rot)%len(pat)]; i++; return v }
 		return geomgen.Build(s, func() geom.Point { x := val(); y := val(); return geom.Point{X: x, Y: y} })
 	}
-	lens := []int{1, 2, 3}
+	lens := []int{1, 2, 3, 4}
 	if tier == "thorough" {
-		lens = []int{1, 2, 3, 4}
+		lens = []int{1, 2, 3, 4, 5}
 	}
 	shapes := map[string][]geomgen.Skel{}
 	shapes["Point"] = []geomgen.Skel{{Kind: geomgen.KPoint}}
